@@ -18,6 +18,269 @@ variable {co : CryptoOps} {env : Env} {c : Cls} {cfg : Cfg} {signer : Signer}
 def encBodyOf (cfg : Cfg) (e : Bytes) : Bytes :=
   e.take hmacOffset ++ e.drop (hmacOffset + hmacSize + (cfg.keyStore.getD []).length)
 
+/-! ### the body (image without HMAC / key store) in closed form -/
+
+theorem romenc_rd32 (b : Bytes) (off : Nat) : Spec.MbiRom.rd32 b off = rd32 b off := rfl
+theorem romenc_sub (b : Bytes) (i j : Nat) : Spec.MbiRom.sub b i j = slice b i j := rfl
+
+theorem romenc_body (hn : EncLens co c cfg signer) :
+    encBodyOf cfg (encImg co c cfg signer) = encPe co c cfg ++ signer (encPe co c cfg) := by
+  have e : hmacOffset + hmacSize + (cfg.keyStore.getD []).length = hmacOffset + hmacSize + encKsLen cfg := rfl
+  unfold encBodyOf
+  rw [encImg_take_ivt hn, e, encImg_drop_body hn]
+  unfold encPe
+  simp only [List.append_assoc]
+
+theorem romenc_slice_prefix (a b : Bytes) (i j : Nat) (h : j ≤ a.length) : slice (a ++ b) i j = slice a i j := by
+  unfold slice
+  rw [List.take_append_of_le_length h]
+
+/-- the ciphertext pieces of the body in their original order are the encrypted image -/
+theorem romenc_cipher_pe (hl : CryptoLaws co) (hc : EncCls c) (hk : EncCfg c cfg) (hn : EncLens co c cfg signer) :
+    slice (encPe co c cfg) (appLen c cfg + cfg.cert.length) (appLen c cfg + cfg.cert.length + encIvtCopySize)
+      ++ slice (encPe co c cfg) encIvtCopySize (appLen c cfg)
+      ++ (encPe co c cfg).drop (appLen c cfg + cfg.cert.length + encIvtCopySize + encIvSize) = encEnc co c cfg := by
+  have hoff : rd32 (encPe co c cfg) ivtCrcCertificateOffset = appLen c cfg := (encIvtOf_words hl hc hk _).2.2.1
+  have h := encrypted_postEncryptRevert hl hc hk hn { cert := some (encCertInfo c cfg) } (encCertInfo c cfg) rfl rfl rfl
+  unfold postEncryptRevert at h
+  rw [hc.hpenc] at h
+  simp only [encCertInfo, hoff, not_true_eq_false, if_false] at h
+  exact Except.ok.inj h
+
+theorem romenc_pe_length (hl : CryptoLaws co) (hc : EncCls c) (hk : EncCfg c cfg) :
+    (encPe co c cfg).length = appLen c cfg + cfg.cert.length + 56 + 16 + cfg.tz.bytes.length :=
+  encPe_length hl hc hk
+
+theorem romenc_cipher (hl : CryptoLaws co) (hc : EncCls c) (hk : EncCfg c cfg) (hn : EncLens co c cfg signer) (sig : Bytes) :
+    slice (encPe co c cfg ++ sig) (appLen c cfg + cfg.cert.length) (appLen c cfg + cfg.cert.length + 56)
+      ++ slice (encPe co c cfg ++ sig) 56 (appLen c cfg)
+      ++ slice (encPe co c cfg ++ sig) (appLen c cfg + cfg.cert.length + 72) (encPe co c cfg).length
+      = encEnc co c cfg := by
+  have hlen := romenc_pe_length hl hc hk
+  rw [romenc_slice_prefix _ _ _ _ (by omega), romenc_slice_prefix _ _ _ _ (by omega),
+    romenc_slice_prefix _ _ _ _ (Nat.le_refl _)]
+  have := romenc_cipher_pe hl hc hk hn
+  simp only [encIvtCopySize, encIvSize] at this
+  unfold slice at this ⊢
+  rw [List.take_length]
+  exact this
+
+theorem romenc_iv (hn : EncLens co c cfg signer) (sig : Bytes) :
+    slice (encPe co c cfg ++ sig) (appLen c cfg + cfg.cert.length + 56) (appLen c cfg + cfg.cert.length + 72) = cfg.ctrIv := by
+  have hL := hn.hL
+  apply encrypted_slice_of_split _ (encIvtOf co c cfg ++ slice (encEnc co c cfg) hmacOffset (appLen c cfg)
+      ++ certInImage c cfg ++ (encEnc co c cfg).take encIvtCopySize) _ ((encEnc co c cfg).drop (appLen c cfg) ++ sig)
+  · unfold encPe encBody; simp only [List.append_assoc]
+  · simp only [List.length_append, hn.hivt, hn.hmid, hn.hcert, hn.hcopy]
+    simp only [encIvtCopySize, hmacOffset] at *; omega
+  · rw [hn.hiv]; simp only [encIvSize]
+
+theorem romenc_cert (hn : EncLens co c cfg signer) (sig : Bytes) :
+    slice (encPe co c cfg ++ sig) (appLen c cfg) (appLen c cfg + cfg.cert.length) = certInImage c cfg := by
+  have hL := hn.hL
+  apply encrypted_slice_of_split _ (encIvtOf co c cfg ++ slice (encEnc co c cfg) hmacOffset (appLen c cfg)) _
+    ((encEnc co c cfg).take encIvtCopySize ++ cfg.ctrIv ++ (encEnc co c cfg).drop (appLen c cfg) ++ sig)
+  · unfold encPe encBody; simp only [List.append_assoc]
+  · simp only [List.length_append, hn.hivt, hn.hmid]; omega
+  · rw [hn.hcert]
+
+theorem romenc_key (k : Bytes) (hk1 : cfg.hmacKey = some k) (b : Bool) (hb : b = cfg.keyStore.isSome) :
+    (if b = true then k else ecbEnc co k Spec.MbiRom.encKeyDerivation) = encKeyOf co cfg := by
+  have : Spec.MbiRom.encKeyDerivation = deriveEncImageKeyConst := by decide
+  subst hb
+  simp only [encKeyOf, hk1, Option.getD_some, encKey, deriveEncImageKey, this]
+
+theorem romenc_decrypt (hl : CryptoLaws co) (c : Cls) (cfg : Cfg) :
+    ctrXor co (encKeyOf co cfg) cfg.ctrIv (encEnc co c cfg) = encRaw c cfg := by
+  unfold encEnc; rw [ctr_invol hl]
+
+
+/-! ### the ROM's checks on the exported image -/
+
+theorem romenc_flags (hl : CryptoLaws co) (hc : EncCls c) (hk : EncCfg c cfg) (signer : Signer) :
+    Spec.MbiRom.rd32 (encImg co c cfg signer) Spec.MbiRom.offFlags = flagsOf c cfg :=
+  (encImg_words hl hc hk signer).2.1
+
+theorem romenc_ksflag (hc : EncCls c) (hk : EncCfg c cfg) :
+    (flagsOf c cfg &&& Spec.MbiRom.flagKeyStore != 0) = cfg.keyStore.isSome :=
+  (encrypted_flag_fields hc hk).2.2.2.1
+
+theorem romenc_romHmac (hl : CryptoLaws co) (hc : EncCls c) (hk : EncCfg c cfg) (hn : EncLens co c cfg signer)
+    (rkth : Bytes) :
+    Spec.MbiRom.romHmac co (romEnvOf c rkth cfg.hmacKey) (encImg co c cfg signer)
+      = .ok (encPe co c cfg ++ signer (encPe co c cfg), hmacSize + encKsLen cfg, cfg.keyStore.isSome) := by
+  obtain ⟨k, hk1, hk2⟩ := hk.hhmac
+  have hstrip : (Spec.MbiRom.hmacSize + if cfg.keyStore.isSome = true then Spec.MbiRom.keyStoreSize else 0)
+      = hmacSize + encKsLen cfg := by
+    rw [encKsLen_eq hk]; rfl
+  have hlen : (encImg co c cfg signer).length ≥ Spec.MbiRom.hmacOffset + (hmacSize + encKsLen cfg) := by
+    have := encImg_len hn
+    have := hn.hL
+    simp only [Spec.MbiRom.hmacOffset, hmacOffset] at *
+    omega
+  have huk : (romEnvOf c rkth cfg.hmacKey).userKey = some k := hk1
+  have hkl : (k.length == Spec.MbiRom.userKeySize) = true := by
+    simp only [hmacKeyLength] at hk2; simp [hk2, Spec.MbiRom.userKeySize]
+  have htake : (encImg co c cfg signer).take Spec.MbiRom.hmacOffset = encIvtOf co c cfg := encImg_take_ivt hn
+  have hdk : Spec.MbiRom.hmacKeyDerivation = deriveHmacKeyConst := by decide
+  have hmac : Spec.MbiRom.sub (encImg co c cfg signer) Spec.MbiRom.hmacOffset (Spec.MbiRom.hmacOffset + Spec.MbiRom.hmacSize)
+      = hmac co .sha256 (ecbEnc co k Spec.MbiRom.hmacKeyDerivation) (encIvtOf co c cfg) := by
+    have e1 : hmac co .sha256 (ecbEnc co k Spec.MbiRom.hmacKeyDerivation) (encIvtOf co c cfg)
+        = computeHmac co cfg (encIvtOf co c cfg) := by
+      unfold computeHmac deriveHmacKey; rw [hk1, hdk]
+    rw [e1]
+    apply encrypted_slice_of_split _ (encIvtOf co c cfg) _ ((cfg.keyStore.getD []) ++ encBody co c cfg
+      ++ signer (encPe co c cfg))
+    · unfold encImg; simp only [List.append_assoc]
+    · exact hn.hivt
+    · rw [hn.hmac]; rfl
+  have hdrop : (encImg co c cfg signer).drop (Spec.MbiRom.hmacOffset + (hmacSize + encKsLen cfg))
+      = encBody co c cfg ++ signer (encPe co c cfg) := by
+    have := encImg_drop_body hn
+    rwa [Nat.add_assoc] at this
+  unfold Spec.MbiRom.romHmac
+  simp only [romenc_flags hl hc hk, romenc_ksflag hc hk, hstrip, hlen, huk, hkl, htake, hmac, hdrop, Spec.MbiRom.need,
+    decide_true, if_true, bind, Except.bind, pure, Except.pure, beq_self_eq_true]
+  unfold encPe
+  simp only [List.append_assoc]
+
+
+theorem romenc_relocImages_mod (es : List RelocEntry) : (relocImages es).length % 4 = 0 := by
+  induction es with
+  | nil => rfl
+  | cons e es ih =>
+    rw [relocImages_cons, List.length_append]
+    have := align4_length_mod e.image
+    omega
+
+theorem romenc_appLen_mod (hc : EncCls c) (hk : EncCfg c cfg) : appLen c cfg % 4 = 0 := by
+  rw [encrypted_appLen hc hk]
+  have h1 : (appData cfg).length % 4 = 0 := align4_length_mod cfg.app
+  have h2 : relocLen c cfg % 4 = 0 := by
+    unfold relocLen
+    cases cfg.reloc with
+    | none => rfl
+    | some es =>
+      simp only
+      rw [relocExport_length]
+      have := romenc_relocImages_mod es
+      omega
+  omega
+
+/-- the IVT words of the decrypted image -/
+theorem romenc_raw_words (hc : EncCls c) (hk : EncCfg c cfg) :
+    rd32 (encRaw c cfg) ivtImageLengthOffset = (if c.zeroTotalLength then 0 else encImgLen c cfg)
+    ∧ rd32 (encRaw c cfg) ivtImageFlagsOffset = flagsOf c cfg
+    ∧ rd32 (encRaw c cfg) ivtCrcCertificateOffset = appLen c cfg
+    ∧ rd32 (encRaw c cfg) ivtLoadAddrOffset = (if c.has .Mbi_MixinLoadAddress then cfg.loadAddress else 0) := by
+  have hA := encrypted_app_ivt hk
+  have hw := updateIvt_words c cfg (appData cfg) (encImgLen c cfg) (appLen c cfg) hA hk.hflags
+    (encImgLen_lt hc hk) (encrypted_appLen_lt hc hk) hk.hla
+  simp only [hc.hla, hc.htype, if_false] at hw
+  have : encRaw c cfg = encU c cfg ++ (encR cfg ++ cfg.tz.bytes) := by unfold encRaw; rw [List.append_assoc]
+  rw [this]
+  unfold encU
+  rw [rd32_updateIvt_append _ _ _ _ _ _ _ hA (by decide), rd32_updateIvt_append _ _ _ _ _ _ _ hA (by decide),
+    rd32_updateIvt_append _ _ _ _ _ _ _ hA (by decide), rd32_updateIvt_append _ _ _ _ _ _ _ hA (by decide)]
+  exact hw
+
+theorem romenc_body_words (hl : CryptoLaws co) (hc : EncCls c) (hk : EncCfg c cfg) (sig : Bytes) :
+    rd32 (encPe co c cfg ++ sig) ivtImageLengthOffset = (if c.zeroTotalLength then 0 else encImgLen c cfg)
+    ∧ rd32 (encPe co c cfg ++ sig) ivtImageFlagsOffset = flagsOf c cfg
+    ∧ rd32 (encPe co c cfg ++ sig) ivtCrcCertificateOffset = appLen c cfg
+    ∧ rd32 (encPe co c cfg ++ sig) ivtLoadAddrOffset = (if c.has .Mbi_MixinLoadAddress then cfg.loadAddress else 0) := by
+  have : encPe co c cfg ++ sig = encIvtOf co c cfg ++ (encBody co c cfg ++ sig) := by
+    unfold encPe; rw [List.append_assoc]
+  rw [this]
+  exact encIvtOf_words hl hc hk _
+
+theorem romenc_romEncrypted (hl : CryptoLaws co) (hc : EncCls c) (hk : EncCfg c cfg) (hn : EncLens co c cfg signer)
+    (rkth : Bytes) (certs : List (Nat × Nat)) (table : List Bytes)
+    (hrom : RomCertV1OK co (romEnvOf c rkth cfg.hmacKey) cfg.cert certs table) (strip : Nat) :
+    ∃ a, Spec.MbiRom.romEncrypted co (romEnvOf c rkth cfg.hmacKey) (encPe co c cfg ++ signer (encPe co c cfg)) strip
+        cfg.keyStore.isSome = .ok a ∧ a.plain = some (encRaw c cfg) ∧ a.stripped = strip := by
+  obtain ⟨k, hk1, hk2⟩ := hk.hhmac
+  obtain ⟨hne, hwalk⟩ := hrom
+  have hL := hn.hL
+  have hpl := romenc_pe_length hl hc hk
+  have hel := encEnc_length hl hc hk
+  have hivl := hk.hctr
+  have hil : (encEnc co c cfg).length + cfg.cert.length + encIvtCopySize + cfg.ctrIv.length = (encPe co c cfg).length := by
+    simp only [encIvtCopySize, ctrInitVectorSize] at *; omega
+  have hilt : (encPe co c cfg).length < 2 ^ 32 := by
+    have h1 := encImgLen_lt hc hk
+    unfold encImgLen at h1
+    rw [encrypted_totalLen hc hk] at h1
+    simp only [Int.toNat_natCast] at h1
+    rw [encrypted_appLen hc hk] at hpl
+    simp only [hmacSize, encIvtCopySize, encIvSize, ctrInitVectorSize] at *
+    omega
+  have hcertIn : certSetImageLength cfg.cert (encPe co c cfg).length = certInImage c cfg := by
+    rw [← hil]; exact encrypted_certInImage hl hc hk
+  have hat : certAt (encPe co c cfg ++ signer (encPe co c cfg)) (certSetImageLength cfg.cert (encPe co c cfg).length)
+      (appLen c cfg) := by
+    unfold certAt
+    rw [hcertIn, romenc_sub, hn.hcert]
+    exact romenc_cert hn _
+  obtain ⟨ci, hci, hcerts, _, himl, hend⟩ := hwalk _ _ _ hat hilt
+  obtain ⟨w1, w2, w3, w4⟩ := romenc_body_words hl hc hk (signer (encPe co c cfg))
+  obtain ⟨r1, r2, r3, r4⟩ := romenc_raw_words hc hk
+  have hoff : Spec.MbiRom.rd32 (encPe co c cfg ++ signer (encPe co c cfg)) Spec.MbiRom.offCrcOrCert = appLen c cfg := w3
+  have hneed1 : (decide (appLen c cfg ≥ Spec.MbiRom.hmacOffset ∧ (appLen c cfg % 4 == 0) = true)) = true := by
+    have := romenc_appLen_mod hc hk
+    simp only [Spec.MbiRom.hmacOffset, hmacOffset] at *
+    simp [this, hL]
+  have hneed2 : (decide (appLen c cfg + cfg.cert.length + Spec.MbiRom.encIvtCopySize + Spec.MbiRom.ivSize
+        ≤ (encPe co c cfg).length
+      ∧ (encPe co c cfg).length < (encPe co c cfg ++ signer (encPe co c cfg)).length)) = true := by
+    have := hk.hsigLen
+    rw [decide_eq_true_eq, List.length_append, hn.hsig]
+    simp only [Spec.MbiRom.encIvtCopySize, Spec.MbiRom.ivSize]
+    omega
+  have huk : (romEnvOf c rkth cfg.hmacKey).userKey = some k := hk1
+  have hlast : ∃ last, ci.certs.getLast? = some last := by
+    rw [hcerts]
+    cases certs with
+    | nil => exact absurd rfl hne
+    | cons a l => exact ⟨_, List.getLast?_eq_some_getLast (by simp)⟩
+  obtain ⟨last, hlast⟩ := hlast
+  have hiv : Spec.MbiRom.sub (encPe co c cfg ++ signer (encPe co c cfg))
+      (appLen c cfg + cfg.cert.length + Spec.MbiRom.encIvtCopySize)
+      (appLen c cfg + cfg.cert.length + Spec.MbiRom.encIvtCopySize + Spec.MbiRom.ivSize) = cfg.ctrIv :=
+    romenc_iv hn _
+  have hcipher : Spec.MbiRom.sub (encPe co c cfg ++ signer (encPe co c cfg)) (appLen c cfg + cfg.cert.length)
+        (appLen c cfg + cfg.cert.length + Spec.MbiRom.encIvtCopySize)
+      ++ Spec.MbiRom.sub (encPe co c cfg ++ signer (encPe co c cfg)) Spec.MbiRom.encIvtCopySize (appLen c cfg)
+      ++ Spec.MbiRom.sub (encPe co c cfg ++ signer (encPe co c cfg))
+        (appLen c cfg + cfg.cert.length + Spec.MbiRom.encIvtCopySize + Spec.MbiRom.ivSize) (encPe co c cfg).length
+      = encEnc co c cfg := romenc_cipher hl hc hk hn _
+  have hkey := romenc_key (co := co) (cfg := cfg) k hk1 cfg.keyStore.isSome rfl
+  have hwords : (decide ((Spec.MbiRom.rd32 (encRaw c cfg) Spec.MbiRom.offFlags
+        == Spec.MbiRom.rd32 (encPe co c cfg ++ signer (encPe co c cfg)) Spec.MbiRom.offFlags) = true
+      ∧ (Spec.MbiRom.rd32 (encRaw c cfg) Spec.MbiRom.offTotalLength
+        == Spec.MbiRom.rd32 (encPe co c cfg ++ signer (encPe co c cfg)) Spec.MbiRom.offTotalLength) = true
+      ∧ (Spec.MbiRom.rd32 (encRaw c cfg) Spec.MbiRom.offCrcOrCert == appLen c cfg) = true
+      ∧ (Spec.MbiRom.rd32 (encRaw c cfg) Spec.MbiRom.offLoadAddress
+        == Spec.MbiRom.rd32 (encPe co c cfg ++ signer (encPe co c cfg)) Spec.MbiRom.offLoadAddress) = true)) = true := by
+    have a1 : Spec.MbiRom.rd32 (encRaw c cfg) Spec.MbiRom.offFlags
+        = Spec.MbiRom.rd32 (encPe co c cfg ++ signer (encPe co c cfg)) Spec.MbiRom.offFlags := r2.trans w2.symm
+    have a2 : Spec.MbiRom.rd32 (encRaw c cfg) Spec.MbiRom.offTotalLength
+        = Spec.MbiRom.rd32 (encPe co c cfg ++ signer (encPe co c cfg)) Spec.MbiRom.offTotalLength := r1.trans w1.symm
+    have a3 : Spec.MbiRom.rd32 (encRaw c cfg) Spec.MbiRom.offCrcOrCert = appLen c cfg := r3
+    have a4 : Spec.MbiRom.rd32 (encRaw c cfg) Spec.MbiRom.offLoadAddress
+        = Spec.MbiRom.rd32 (encPe co c cfg ++ signer (encPe co c cfg)) Spec.MbiRom.offLoadAddress := r4.trans w4.symm
+    rw [a1, a2, a3, a4]
+    simp
+  have hres : Spec.MbiRom.romEncrypted co (romEnvOf c rkth cfg.hmacKey) (encPe co c cfg ++ signer (encPe co c cfg)) strip
+      cfg.keyStore.isSome = .ok { stripped := strip
+                                  obligations := [.x509Chain ci.certs ci.table, .rsaByCert last ci.imageLength]
+                                  authenticated := [(0, (encPe co c cfg ++ signer (encPe co c cfg)).length + strip)]
+                                  plain := some (encRaw c cfg) } := by
+    unfold Spec.MbiRom.romEncrypted
+    simp only [hoff, hneed1, hci, hend, himl, hneed2, huk, hlast, hiv, hcipher, hkey, romenc_decrypt hl, hwords,
+      Spec.MbiRom.need, if_true, bind, Except.bind, pure, Except.pure]
+  exact ⟨_, hres, rfl, rfl⟩
+
 /-- decrypts_to_plain: (encrypted IVT copy ‖ bytes 56..certificate ‖ bytes behind the IV up to the signature), decrypted with
     AES-CTR under the user key (key store present) or the derived key (ROM's derivation constant) and the stored IV,
     is the plaintext image the collector built -/
@@ -30,7 +293,17 @@ theorem decrypts_to_plain (h : Hyp co env c cfg signer) (hf : c.family = some .e
          ctrXor co key (slice body (ce + 56) (ce + 72))
             (slice body ce (ce + 56) ++ slice body 56 off ++ slice body (ce + 72) (body.length - cfg.sigLen)) = raw)
       ∧ raw.take (appData cfg).length = updateIvt c cfg (appData cfg) (encImgLen c cfg) (appLen c cfg) := by
-  sorry
+  have hc := encCls h.hcls hf
+  have hk := encCfg hc h.hcfg
+  have hn := encLens h.hlaws hc hk signer h.hsig
+  obtain ⟨k, hk1, _⟩ := hk.hhmac
+  refine ⟨_, _, k, encrypted_export h.hlaws hc hk signer, encrypted_collect hc hk, hk1, ?_, ?_⟩
+  · simp only [romenc_body hn]
+    rw [romenc_iv hn, List.length_append, h.hsig, Nat.add_sub_cancel, romenc_cipher h.hlaws hc hk hn,
+      romenc_key k hk1 _ rfl, romenc_decrypt h.hlaws]
+  · have : encRaw c cfg = encU c cfg ++ (encR cfg ++ cfg.tz.bytes) := by unfold encRaw; rw [List.append_assoc]
+    rw [this, ← encU_length hk, List.take_left]
+    rfl
 
 /-- the signed range: everything of the body before the signature, announced by the certificate block inside it -/
 theorem signed_range_is_prefix_encrypted (h : Hyp co env c cfg signer) (hf : c.family = some .encrypted) :
@@ -38,7 +311,32 @@ theorem signed_range_is_prefix_encrypted (h : Hyp co env c cfg signer) (hf : c.f
       ∧ encBodyOf cfg e = pre ++ signer pre
       ∧ slice pre (appLen c cfg) (appLen c cfg + cfg.cert.length) = certInImage c cfg
       ∧ rd32 (certInImage c cfg) certImageLengthOffset = pre.length := by
-  sorry
+  have hc := encCls h.hcls hf
+  have hk := encCfg hc h.hcfg
+  have hn := encLens h.hlaws hc hk signer h.hsig
+  refine ⟨_, encPe co c cfg, encrypted_export h.hlaws hc hk signer, romenc_body hn, ?_, ?_⟩
+  · have := romenc_cert hn []
+    rwa [List.append_nil] at this
+  · have hlen := romenc_pe_length h.hlaws hc hk
+    have hil := encrypted_certInImage h.hlaws hc hk
+    have he := encEnc_length h.hlaws hc hk
+    have hiv := hk.hctr
+    have hlt := encImgLen_lt hc hk
+    have htl := encImg_length_total h.hlaws hc hk signer h.hsig
+    have htl2 := encImg_len hn
+    have hcl := hk.hcertLen
+    simp only [ctrInitVectorSize, encIvtCopySize, certHeaderSize, encIvSize, hmacSize] at *
+    rw [← hil]
+    unfold certSetImageLength setAt
+    simp only [certImageLengthOffset]
+    rw [rd32_at _ (cfg.cert.take 20) (cfg.cert.drop (20 + (le32 ((encEnc co c cfg).length + cfg.cert.length + 56
+      + cfg.ctrIv.length)).length)) _ 20 rfl (by rw [List.length_take]; omega) (by omega)]
+    omega
+
+theorem romenc_imageType (hc : EncCls c) (hk : EncCfg c cfg) : getImageType (flagsOf c cfg) = c.imageType := by
+  unfold flagsOf
+  exact (flags_fields c.imageType cfg.tz.tag cfg.subType cfg.imageVersion _ _ _ _ _ _ _ _ _ _ _ _ hc.himgType
+    (encrypted_tzTag_le cfg) hk.hst (encrypted_imgVer_le hk)).1
 
 /-- the ROM accepts the exported image and its decryption is the collector's plaintext -/
 theorem rom_accepts_encrypted (h : Hyp co env c cfg signer) (hf : c.family = some .encrypted) (ht : signedTypeOk c = true)
@@ -48,6 +346,44 @@ theorem rom_accepts_encrypted (h : Hyp co env c cfg signer) (hf : c.family = som
       ∧ Spec.MbiRom.romCheck co (romEnvOf c rkth cfg.hmacKey) e = .ok a
       ∧ a.plain = some raw
       ∧ a.stripped = hmacSize + (cfg.keyStore.getD []).length := by
-  sorry
+  have hc := encCls h.hcls hf
+  have hk := encCfg hc h.hcfg
+  have hn := encLens h.hlaws hc hk signer h.hsig
+  obtain ⟨a, ha, hplain, hstrip⟩ := romenc_romEncrypted h.hlaws hc hk hn rkth certs table hrom (hmacSize + encKsLen cfg)
+  refine ⟨_, a, _, encrypted_export h.hlaws hc hk signer, encrypted_collect hc hk, ?_, hplain, hstrip⟩
+  have hflags := romenc_flags h.hlaws hc hk signer
+  have hty : c.imageType = 3 := by
+    unfold signedTypeOk at ht
+    simpa [hc.hsign, hf] using ht
+  have htype : (flagsOf c cfg &&& Spec.MbiRom.maskImageType) = 3 := by
+    have := romenc_imageType hc hk
+    rw [hty] at this
+    exact this
+  have htz : ((flagsOf c cfg >>> Spec.MbiRom.shiftTzType) &&& Spec.MbiRom.maskTzType) = cfg.tz.tag :=
+    (encrypted_flag_fields hc hk).1
+  have hlen : decide ((encImg co c cfg signer).length ≥ Spec.MbiRom.ivtSize) = true := by
+    have h1 := encImg_len hn
+    have h2 := hn.hL
+    rw [decide_eq_true_eq]
+    simp only [Spec.MbiRom.ivtSize, hmacOffset] at *
+    omega
+  have htotal : (if (romEnvOf c rkth cfg.hmacKey).zeroTotalLength = true
+      then Spec.MbiRom.rd32 (encImg co c cfg signer) Spec.MbiRom.offTotalLength == 0
+      else Spec.MbiRom.rd32 (encImg co c cfg signer) Spec.MbiRom.offTotalLength == (encImg co c cfg signer).length) = true := by
+    have w1 : Spec.MbiRom.rd32 (encImg co c cfg signer) Spec.MbiRom.offTotalLength
+        = (if c.zeroTotalLength then 0 else encImgLen c cfg) := (encImg_words h.hlaws hc hk signer).1
+    have hz : (romEnvOf c rkth cfg.hmacKey).zeroTotalLength = c.zeroTotalLength := rfl
+    rw [w1, hz, encImg_length_total h.hlaws hc hk signer h.hsig]
+    cases c.zeroTotalLength <;> simp
+  have htzok : decide ((cfg.tz.tag == Spec.MbiRom.tzEnabled) = true ∨ (cfg.tz.tag == Spec.MbiRom.tzCustom) = true
+      ∨ (cfg.tz.tag == Spec.MbiRom.tzDisabled) = true) = true := by
+    cases cfg.tz <;> simp [TzCfg.tag, tzEnabled, tzCustom, tzDisabled, Spec.MbiRom.tzEnabled, Spec.MbiRom.tzCustom,
+      Spec.MbiRom.tzDisabled]
+  have hkind : ((romEnvOf c rkth cfg.hmacKey).certKind == Spec.MbiRom.CertKind.v1) = true := by
+    simp [romEnvOf, hc.hV1]
+  unfold Spec.MbiRom.romCheck
+  simp only [hflags, htype, htz, hlen, htotal, htzok, hkind, romenc_romHmac h.hlaws hc hk hn rkth, ha,
+    Spec.MbiRom.need, if_true, bind, Except.bind, pure, Except.pure]
+  rfl
 
 end SpsdkVerif.Mbi
